@@ -391,17 +391,22 @@ class Instance(Component):
             line = oline.strip()
             if len(line) <= 0:
                 continue
+            tokens: list[str] = line.split()
             if state == 0:
-                n = check_to_int_range(line, "n", 1, 1_000_000)
+                n = check_to_int_range(tokens[0], "n", 1, 1_000_000)
                 n2 = n * n
                 state = 1
-            else:
-                row: Iterable[int] = map(_flow_or_dist_to_int, line.split())
-                if state == 1:
-                    flows.extend(row)
-                    if len(flows) >= n2:
-                        state = 2
-                        continue
+                del tokens[0]
+            # QAPLib data is a free-format stream of numbers: a line may
+            # carry numbers of more than one of the three blocks.
+            row: list[int] = list(map(_flow_or_dist_to_int, tokens))
+            if state == 1:
+                missing: int = n2 - len(flows)
+                flows.extend(row[:missing])
+                del row[:missing]
+                if len(flows) >= n2:
+                    state = 2
+            if state == 2:
                 dists.extend(row)
                 if len(dists) >= n2:
                     state = 3
